@@ -1,5 +1,7 @@
 package event
 
+import "sync"
+
 type EventFn[T any] func(data T)
 
 type Unsubscribe func()
@@ -14,6 +16,11 @@ type Event[T any] struct {
 	nextID      uint64
 }
 
+// Guards the subscriber list and id counter of every Event. Components subscribe and unsubscribe
+// while configuration changes fire events from other goroutines. The lock lives outside the struct
+// because an Event is embedded by value in types that are copied when they are constructed.
+var mu sync.Mutex
+
 func New[T any]() *Event[T] {
 	return &Event[T]{}
 }
@@ -22,10 +29,16 @@ func New[T any]() *Event[T] {
 func (e *Event[T]) Subscribe(fn EventFn[T]) Unsubscribe {
 	// Subscribers are identified by a unique id and not by their position,
 	// since positions shift whenever an earlier subscriber is removed.
+	mu.Lock()
+	defer mu.Unlock()
+
 	id := e.nextID
 	e.nextID++
 	e.subscribers = append(e.subscribers, subscription[T]{id: id, fn: fn})
 	return func() {
+		mu.Lock()
+		defer mu.Unlock()
+
 		for i, sub := range e.subscribers {
 			if sub.id == id {
 				e.subscribers = append(e.subscribers[:i:i], e.subscribers[i+1:]...)
@@ -40,7 +53,12 @@ func (e *Event[T]) Subscribe(fn EventFn[T]) Unsubscribe {
 // NOTE: The subscribers are notified in separate goroutines,
 // so be aware of potential race conditions.
 func (e *Event[T]) Fire(data T) {
-	for _, subscriber := range e.subscribers {
+	mu.Lock()
+	subscribers := make([]subscription[T], len(e.subscribers))
+	copy(subscribers, e.subscribers)
+	mu.Unlock()
+
+	for _, subscriber := range subscribers {
 		go subscriber.fn(data)
 	}
 }
